@@ -79,7 +79,11 @@ CallWrite ==
 Next == CallWrite
 Spec == Init /\ [][Next]_vars
 
-Consistent == lastret \in {"ok", "retry"} => delivered = RefVis(RInit, SubSeq(input, 1, pos))
 Done == pos = Len(input) \/ lastret = "fatal"
+\* liveness of the design: with the fault budget spent, every call makes progress, so the protocol-following caller finishes
+FairSpec == Spec /\ WF_vars(Next)
+Termination == <>Done
+
+Consistent == lastret \in {"ok", "retry"} => delivered = RefVis(RInit, SubSeq(input, 1, pos))
 EmitScripts == (Emit /\ Done /\ hist # <<>>) => PrintT(ToJson([i |-> input, calls |-> hist]))
 =============================================================================
